@@ -75,6 +75,42 @@ static void one(uintptr_t a, const char*)
   }
 }
 
+// raw FUNCTION pointers through the same entry points: the address of an application function (or the host address of
+// guest code) never lies inside the sandbox's memory, so all three entry points must abort
+static int app_function(long) { return 0; }
+static void function_pointers()
+{
+  using Fn = int (*)(long);
+  Fn fns[2] = { &app_function, reinterpret_cast<Fn>(&one) };
+  for (int k = 0; k < 2; k++) {
+    Fn f = fns[k];
+    auto bad = [&](const char* ep) {
+      viol(std::string("C02 mode=") + kMode + " entry=" + ep + " class=function-pointer kind=accepted-outside", std::string("fn|") + ep + "|" + std::to_string(k), "the address of an application function was accepted as a tainted function pointer without any check");
+    };
+    n_eval += 3;
+    n_nontriv += 3;
+    {
+      tn<Fn> t = nullptr;
+      g_abort_flag = 0;
+      t.assign_raw_pointer(*g_sb, f);
+      if (!g_abort_flag) bad("tainted::assign_raw_pointer");
+    }
+    {
+      tn<Fn*> cell;
+      cell.assign_raw_pointer(*g_sb, reinterpret_cast<Fn*>(g_base + 0x120));
+      g_abort_flag = 0;
+      (*cell).assign_raw_pointer(*g_sb, f);
+      if (!g_abort_flag) bad("tainted_volatile::assign_raw_pointer");
+    }
+    {
+      g_abort_flag = 0;
+      auto t = g_sb->UNSAFE_accept_pointer(f);
+      (void)t;
+      if (!g_abort_flag) bad("UNSAFE_accept_pointer");
+    }
+  }
+}
+
 int main(int argc, char** argv)
 {
   parse(argc, argv);
@@ -87,7 +123,8 @@ int main(int argc, char** argv)
   g_obase = other.get_sandbox_impl()->base;
   if (g_args.replay) {
     auto f = split(g_args.replay, '|');
-    one(strtoull(f[2].c_str(), nullptr, 16), "replay");
+    if (f[0] == "fn") function_pointers();
+    else one(strtoull(f[2].c_str(), nullptr, 16), "replay");
     stat("evaluations", n_eval);
     finish();
     return 0;
@@ -99,6 +136,7 @@ int main(int argc, char** argv)
     one(a, cls);
   }
   if (g_args.part == 0) {
+    function_pointers();
     one(0, "null");
     for (uintptr_t a = g_obase; a < g_obase + kSize; a += 7) one(a, "other-live-sandbox");
     one(g_obase, "other-live-sandbox");
